@@ -371,9 +371,12 @@ func (e *Enc) typeAssume(st *State, lf Leaf, t string) {
 			e.assertTyping("(<= " + t + " " + st.alloc + ")")
 		}
 	case *types.Slice:
-		switch lf.Path {
-		case ".base":
+		switch {
+		case strings.HasSuffix(lf.Path, ".base"):
 			e.assertTyping("(<= " + t + " " + st.alloc + ")")
+		case strings.HasSuffix(lf.Path, ".len"), strings.HasSuffix(lf.Path, ".cap"), strings.HasSuffix(lf.Path, ".off"):
+			// lengths, capacities and offsets of slice values are non-negative ints
+			e.assertTyping("(and (<= 0 " + t + ") (<= " + t + " 9223372036854775807))")
 		}
 	}
 }
